@@ -53,7 +53,7 @@ func runFunc(repo string, keys []string) int {
 			rc = 2
 			continue
 		}
-		fmt.Printf("== %s: %d obligation instances, %d paths, tooLarge=%v unsupported=%v\n", key, len(res.Obligs), res.Paths, res.TooLarge, res.Unsupported)
+		fmt.Printf("== %s: %d obligation instances, %d paths, %d bounded cuts, tooLarge=%v unsupported=%v\n", key, len(res.Obligs), res.Paths, res.Cuts, res.TooLarge, res.Unsupported)
 		var jobs []job
 		for i, o := range res.Obligs {
 			jobs = append(jobs, job{o, res.Lits, i})
@@ -93,6 +93,40 @@ func runFunc(repo string, keys []string) int {
 		}
 		for _, n := range res.Notes {
 			fmt.Println("  note:", n)
+		}
+	}
+	return rc
+}
+
+func runFrameCmd(repo string, names []string) int {
+	root := verifRoot()
+	w, err := loadWorld(repo)
+	if err != nil {
+		fmt.Fprintln(os.Stderr, err)
+		return 2
+	}
+	sp, err := loadSpecs(w, filepath.Join(root, "specs", "extern"))
+	if err != nil {
+		fmt.Fprintln(os.Stderr, err)
+		return 2
+	}
+	rc := 0
+	for _, n := range names {
+		r := runFrame(w, sp, n)
+		fmt.Printf("== %s ok=%v functions=%d\n", r.Name, r.OK, r.Functions)
+		for _, v := range r.Violations {
+			fmt.Println("   VIOLATES:", v)
+			rc = 1
+		}
+		if m, ok := r.Summary.(map[string]interface{}); ok {
+			var keys []string
+			for k := range m {
+				keys = append(keys, k)
+			}
+			sort.Strings(keys)
+			for _, k := range keys {
+				fmt.Printf("   %s: %v\n", k, m[k])
+			}
 		}
 	}
 	return rc
